@@ -174,6 +174,18 @@ WITNESSES = [
                          [{"t": T0, "d": 0, "calls": [{"op": "monitor", "ch": "m"}, reg("Printer")]}, {"run_until": T0 + 400},
                           {"t": T0 + 400, "d": 0, "dgrams": [srv_conflict("Printer")]}, {"run_until": T0 + 4000},
                           {"t": T0 + 4000, "d": 0, "dgrams": [query([([b"Printer", b"_t", b"_tcp", b"local"], 33)])]}])),
+    ("w_skipreprobe", hist("a competing probe wins the tie-break at +471 ms (the instance probe is deferred to +1471 ms), a "
+                           "conflicting A record renames the host at +472 ms: update_hostname moves the instance probe's "
+                           "start_time back, so at +1471 ms it counts as finished - announced after one probe query", V4,
+                           [{"t": T0, "d": 0, "calls": [{"op": "monitor", "ch": "m"},
+                                                         {"op": "register", "svc": reglib.svc("_s1._sub._t._tcp.local.", "dev-1", "h-2.local.",
+                                                                                               "192.168.1.10", 80, [["61", "62"]])}]},
+                            {"run_until": T0 + 470},
+                            {"t": T0 + 471, "d": 0, "dgrams": [{"if": 2, "v4": True, "src": "192.168.1.99:5353", "hex":
+                                "000000000001000000020000056465762d31025f74045f746370056c6f63616c0000ff0001c00c0021800100000078000c00000000005003682d32c01ac00c0010800100001194000403613d62"}]},
+                            {"t": T0 + 472, "d": 0, "dgrams": [{"if": 2, "v4": True, "src": "192.168.1.98:5353", "hex":
+                                "00008400000000010000000003682d32056c6f63616c0000018001000000780004c0a801c8"}]},
+                            {"run_until": T0 + 1972}], seed=10)),
     ("w_unregister", hist("register, both announcements, unregister, repeat, then a PTR question: no answer", V4,
                           [{"t": T0, "d": 0, "calls": [{"op": "monitor", "ch": "m"}, reg()]}, {"run_until": T0 + 2500},
                            {"t": T0 + 2500, "d": 0, "calls": [{"op": "unregister", "name": "INST._t._tcp.local.", "ch": "u1"}]},
